@@ -5,7 +5,7 @@ CONSTANTS
   Kind = "nameaddr"
   Atoms <- AtomsExpBig
   Prefix <- PfxPExp64
-  MaxLen = 35
+  MaxLen = 34
   Cfgs <- CfgsNA1
   Junk = 34
   EmitOn = TRUE
